@@ -1,6 +1,7 @@
 package c01
 
 import (
+	"os"
 	"fmt"
 
 	"compiler/verifh/fl"
@@ -281,9 +282,16 @@ func seqFrom(ops []seqOp, quick bool) []*prog.Case {
 		}
 	}
 	if !quick {
+		// triples: every ordered pair (i, j) is continued by every 13th operation, the residue
+		// chosen by (i + j), so that every operation follows every pair class and the tier stays
+		// at n^3/13 (about 21 000) programs; the full cube (n^3 = 275 000) is one VERIF_SEQ_CUBE=1 away
+		step := 13
+		if os.Getenv("VERIF_SEQ_CUBE") != "" {
+			step = 1
+		}
 		for i := 0; i < n; i++ {
 			for j := 0; j < n; j++ {
-				for h := 0; h < n; h++ {
+				for h := (i + j) % step; h < n; h += step {
 					out = append(out, seqCase(ops, []int{i, j, h}))
 				}
 			}
